@@ -113,7 +113,8 @@ def _record_edge(parent, child, mod_config):
     else:
       try:
         unit = build_edge_unit(f"{_STATE['test']}|{op}#{rec['n']}", parent, child, "F", rng, cap,
-                               max_cells=int(os.environ.get("TESTREC_MAX_CELLS", "600")))
+                               max_cells=int(os.environ.get("TESTREC_MAX_CELLS", "600")),
+                               trace=op in os.environ.get("TESTREC_TRACE_OPS", "").split(","))
         ha, hb = canon_proc_hash(unit, "A"), canon_proc_hash(unit, "B")
         if top_proc_hash(unit, "A") == top_proc_hash(unit, "B"):
             rec["status"] = "noop"
@@ -232,6 +233,13 @@ if _OUT:
 
     _install()
 
+    _CLAIMS = []
+    if os.environ.get("TESTREC_CLAIMS", "0") == "1":
+        # every claim the real range analysis makes while the repository's tests run (C13)
+        from .rangeclaims import install_recorder as _install_claims
+        _claim_tag = ["repo-test"]
+        _install_claims(_CLAIMS, _claim_tag)
+
     if os.environ.get("TESTREC_EDITS", "0") == "1":
         from . import edittrace as _ET
         _ET.start(cap=int(os.environ.get("TESTREC_EDIT_CAP", "600")))
@@ -256,6 +264,14 @@ if _OUT:
         _STATE["test"] = "(session end)"
         if _ET is not None:
             _emit({"kind": "edits", "edits": _ET.drain(), "edit_stats": _ET.stats()})
+        if _CLAIMS:
+            seen, out = set(), []
+            for c in _CLAIMS:
+                k = json.dumps([c["e"], c["env"], c["base"], c["haslo"], c["lo"], c["hashi"], c["hi"]], sort_keys=True)
+                if k not in seen:
+                    seen.add(k)
+                    out.append(c)
+            _emit({"kind": "claims", "claims": out[: int(os.environ.get("TESTREC_MAX_CLAIMS", "4000"))], "logged": len(_CLAIMS)})
         if os.environ.get("TESTREC_PURITY", "1") == "1":
             _imports_session()
         _emit({"kind": "end", "overhead_s": round(_STATE["t_over"], 1), "sweep_s": round(_STATE.get("t_sweep", 0.0), 1),
@@ -273,7 +289,7 @@ THOROUGH_FILES = QUICK_FILES + ["tests/test_halide_ops.py", "tests/test_range_an
 
 
 def run_tests(files, workdir, repo=None, cap=6, timeout=1500, fwd=True, units=True, purity=True, max_cells=600,
-              edits=False):
+              edits=False, claims=False, trace_ops=""):
     """Run each test file (optionally split into shards by -k-less item slicing) under the recorder.
     -> (records, per-file info)."""
     from .common import NCPU, REPO, MachineryError
@@ -288,7 +304,8 @@ def run_tests(files, workdir, repo=None, cap=6, timeout=1500, fwd=True, units=Tr
         env = dict(os.environ)
         env.update({"TESTREC_OUT": out, "TESTREC_CAP": str(cap), "TESTREC_FWD": "1" if fwd else "0",
                     "TESTREC_UNITS": "1" if units else "0", "TESTREC_PURITY": "1" if purity else "0",
-                    "TESTREC_MAX_CELLS": str(max_cells), "TESTREC_EDITS": "1" if edits else "0"})
+                    "TESTREC_MAX_CELLS": str(max_cells), "TESTREC_EDITS": "1" if edits else "0",
+                    "TESTREC_CLAIMS": "1" if claims else "0", "TESTREC_TRACE_OPS": trace_ops})
         env.pop("PYTEST_ADDOPTS", None)
         cmd = [sys.executable, "-m", "pytest", "-q", "-x" if False else "-q", "-p", "no:cacheprovider",
                "-p", "harness.testrec", "--timeout=900", "-o", "addopts=", f]
@@ -327,11 +344,12 @@ def run_tests(files, workdir, repo=None, cap=6, timeout=1500, fwd=True, units=Tr
     return recs, info
 
 
-def test_edges(files, workdir, cap=4, max_cells=600, fwd=False, purity=False, units=True, timeout=1500, edits=False):
+def test_edges(files, workdir, cap=4, max_cells=600, fwd=False, purity=False, units=True, timeout=1500, edits=False,
+               claims=False, trace_ops=""):
     """Recorded derivation edges of the repository's tests in the record format of edgecheck.decide_edges
     (prog = test id, args = ordinal of the step in its test file, facts = {}).  -> (edges, info, other records)"""
     recs, info = run_tests(files, workdir, cap=cap, fwd=fwd, units=units, purity=purity, max_cells=max_cells,
-                           timeout=timeout, edits=edits)
+                           timeout=timeout, edits=edits, claims=claims, trace_ops=trace_ops)
     edges, other = [], []
     seen = set()
     for r in recs:
